@@ -55,7 +55,7 @@ pub fn roundtrip(m: &Module, text: &str, how: &str) -> Result<(), (String, Strin
 /// Break a token stream so that the text is certainly not a module of the language.
 /// Returns (kind, broken tokens) or None if the mutation does not apply.
 pub fn mutate(toks: &[Tok], rng: &mut Rng) -> Option<(&'static str, Vec<Tok>)> {
-    let kind = rng.below(8);
+    let kind = rng.below(9);
     let mut t = toks.to_vec();
     let positions = |pred: &dyn Fn(&Tok) -> bool| -> Vec<usize> {
         toks.iter().enumerate().filter(|(_, x)| pred(x)).map(|(i, _)| i).collect()
@@ -154,6 +154,28 @@ pub fn mutate(toks: &[Tok], rng: &mut Rng) -> Option<(&'static str, Vec<Tok>)> {
             }
             t[i] = Tok::Word(rng.pick(&["typ", "enumm", "implement", "uses", "struct"]).to_string());
             Some(("misspelt-keyword", t))
+        }
+        7 => {
+            // an integer that does not fit the language's integer type (isize / usize)
+            let ps: Vec<usize> = toks
+                .iter()
+                .enumerate()
+                .filter(|(_, x)| matches!(x, Tok::Word(w) if w.chars().next().is_some_and(|c| c.is_ascii_digit())))
+                .map(|(i, _)| i)
+                .collect();
+            if ps.is_empty() {
+                return None;
+            }
+            let i = *rng.pick(&ps);
+            let in_usize_position = i > 0 && matches!(&toks[i - 1], Tok::Punct(";") | Tok::Punct("<"));
+            let big = if in_usize_position {
+                // array lengths and unknown<N> are usize
+                *rng.pick(&["18446744073709551616", "0x1_0000_0000_0000_0000", "340282366920938463463374607431768211455"])
+            } else {
+                *rng.pick(&["9223372036854775808", "0x8000_0000_0000_0000", "0xFFFF_FFFF_FFFF_FFFF", "18446744073709551615", "18446744073709551616", "340282366920938463463374607431768211455"])
+            };
+            t[i] = Tok::Word(big.to_string());
+            Some(("integer-out-of-range", t))
         }
         _ => {
             // stray token where nothing can start or continue
